@@ -12,6 +12,8 @@ TRUSTED = ["std::io::Read is modelled by BufWin.rd_read (a schedule of Data n / 
            "by the harness' SchedReader with the same schedule"]
 ASSUMPTIONS = ["usize/depth arithmetic is unbounded in the model (inputs are far below 2^31 nested opens / 2^64 bytes)"]
 
+PROFILES = ["release", "debug"]
+
 OPEN, CLOSE, EQUAL, U32, U64, I32, BOOL, QUOTED, UNQUOTED, F32, F64, RGB, I64 = (
     0x0003, 0x0004, 0x0001, 0x0014, 0x029c, 0x000c, 0x000e, 0x000f, 0x0017, 0x000d, 0x0167, 0x0243, 0x0317)
 RESERVED = [OPEN, CLOSE, EQUAL, U32, U64, I32, BOOL, QUOTED, UNQUOTED, F32, F64, RGB, I64]
@@ -284,13 +286,13 @@ def inputs(ctx):
     """(label, bytes) inputs shared by several streams"""
     rng = ctx.rng
     out = []
-    for _ in range(ctx.scale(250, 2500)):
+    for _ in range(ctx.scale(600, 3000)):
         out.append(("seq", b"".join(enc(t) for t in rand_seq(rng, rng.randrange(0, 9)))))
-    for _ in range(ctx.scale(120, 1200)):
+    for _ in range(ctx.scale(300, 1500)):
         out.append(("doc", b"".join(enc(t) for t in rand_doc(rng))))
-    for _ in range(ctx.scale(250, 2500)):
+    for _ in range(ctx.scale(600, 3000)):
         out.append(("raw", raw_bytes(rng, rng.randrange(0, 48))))
-    for _ in range(ctx.scale(200, 2000)):
+    for _ in range(ctx.scale(500, 2500)):
         b = bytearray(b"".join(enc(t) for t in rand_seq(rng, rng.randrange(1, 7))))
         r = rng.random()
         if r < 0.5 and b:
@@ -348,8 +350,10 @@ def run_binary(ctx):
               ("I64", 2 ** 63 - 1), ("BOOL", True), ("BOOL", False), ("RGB", (0, 0, 0)), ("RGB", (2 ** 32 - 1,) * 4), ("F32", b"\xff" * 4),
               ("F64", b"\x00" * 8), ("F32", le(OPEN, 2) + le(CLOSE, 2)), ("F64", le(CLOSE, 2) * 4)]:
         seqs.append([t]); seqs.append([("O",), t, ("C",), t])
-    # not well formed on purpose (definitional, not findings): reserved ids as Id, strings of 2^16 and more bytes
-    illformed = [[("T", r)] for r in RESERVED] + [[("T", U32), ("T", 0x2d28), ("T", 0x2d28)], [("Q", b"a" * 65536), ("T", 9)], [("U", b"b" * 65541)]]
+    # not well formed on purpose (definitional, not findings): reserved ids as Id, strings of 2^16 and more bytes (their
+    # payload is itself one long string token so that the truncated length leaves few tokens to lex)
+    illformed = [[("T", r)] for r in RESERVED] + [[("T", U32), ("T", 0x2d28), ("T", 0x2d28)], [("Q", le(QUOTED, 2) + le(65532, 2) + b"a" * 65532), ("T", 9)],
+                                                             [("U", b"bbbbb" + le(UNQUOTED, 2) + le(65532, 2) + b"b" * 65532)]]
     wcases = ["bl.write\t%s" % (" ".join(txt(t) for t in s) if s else "-") for s in seqs + illformed]
     impl, _ = ctx.correspond("write", wcases, nontrivial=lambda c, i: i != "-")
     base = len(impl) - len(wcases)
@@ -417,7 +421,7 @@ def run_binary(ctx):
         need = need_of(d)
         n = len(d)
         caps = sorted(set([max(need, 1), need + 1, 100, 65539]))
-        if n <= 9 and n_comp < ctx.scale(25, 120):
+        if n <= 9 and n_comp < ctx.scale(40, 150):
             n_comp += 1
             for comp in compositions(n):
                 for cap in caps[:2]:
@@ -463,6 +467,13 @@ def run_binary(ctx):
             problem = check_undersized(got, ref)
             if problem:
                 ctx.fail("stream-small", "cap %d < largest token %d: %s (reader %s, lexer %s)" % (cap, need, problem, got[:200], ref[:200]), [scases[j], lc[k]], [got[:1000], ref[:1000]])
+    # the same cases on the debug build (overflow checks, debug_assert! in BufferWindow::advance/advance_to): same answers
+    pick = sorted(rng.sample(range(len(scases)), min(len(scases), ctx.scale(2500, 20000))))
+    dimpl, _ = ctx.correspond("stream_debug_build", [scases[j] for j in pick], profile="debug", model=False)
+    dbase = len(dimpl) - len(pick)
+    for n_, j in enumerate(pick):
+        if dimpl[dbase + n_] != simpl[sbase + j]:
+            ctx.fail("debug-build", "debug build answers %s, release build %s" % (dimpl[dbase + n_][:200], simpl[sbase + j][:200]), [scases[j]], [dimpl[dbase + n_][:1000], simpl[sbase + j][:1000]])
     ctx.count("stream_fitting", n_fit)
     ctx.count("stream_undersized", n_small)
     ctx.count("stream_all_compositions_inputs", n_comp)
